@@ -37,6 +37,19 @@ def deadlock():
     P.append(prog(106, "corpus_deadlock", [
         [op("spawn", v=1), op("barrier_wait", o=0), op("join", v=1)],
         [op("load", o=0)]], barriers=[3], atomics=[0]))
+    # a real deadlock of the attached tasks while a detached future is still pending / still runnable
+    P.append(prog(108, "corpus_deadlock", [
+        [op("spawn_future", v=1), op("detach", v=1), op("bo_begin"), op("await_flag", o=1), op("bo_end")],
+        [op("await_flag", o=0)]], nflags=2, kinds=["thread", "future"]))
+    P.append(prog(109, "corpus_deadlock", [
+        [op("spawn_future", v=1), op("spawn_future", v=2), op("detach", v=1), op("bo_begin"), op("await_join", v=2), op("bo_end")],
+        [op("ayield"), op("load", o=0), op("await_flag", o=0)],
+        [op("await_flag", o=1), op("store", o=0, v=1)]], nflags=2, atomics=[0], kinds=["thread", "future", "future"]))
+    # detached tasks never keep the execution alive nor make it a deadlock
+    P.append(prog(110, "corpus_deadlock", [
+        [op("spawn_future", v=1), op("spawn_future", v=2), op("detach", v=1), op("detach", v=2), op("yield"), op("load", o=0)],
+        [op("await_flag", o=0), op("store", o=0, v=1)],
+        [op("ayield"), op("store", o=0, v=2), op("ayield"), op("store", o=0, v=3)]], nflags=1, atomics=[0], kinds=["thread", "future", "future"]))
     # semaphore without enough permits
     P.append(prog(107, "corpus_deadlock", [
         [op("spawn", v=1), op("acquire", o=0, v=2), op("join", v=1)],
